@@ -1,11 +1,13 @@
 /* server.c — H-sim harness for C10 (server answers each request datagram once with the prescribed code).
  *
  *   srv <mpr> <mts> <known> <unk> <prx> <res> <verdict> <pu> <dst> <hex>
+ *   srvq … a sequence of datagrams from several peers at one context: see stepq() below
  *
  *   mpr      0|1          coap_mcast_per_resource() called on the context
  *   mts      8..          coap_context_set_max_token_size()
  *   known    -|n,n,…      option numbers registered with coap_register_option()
- *   unk      -|MASK:FLAGS                 unknown-resource (handler for method m present iff bit m-1 of MASK)
+ *   unk      -|MASK:FLAGS                 unknown-resource (handler for method m present iff bit m-1 of MASK, 0..127;
+ *                                         see set_handlers(): the constructors' own registrations are relied upon)
  *   prx      -|MASK:FLAGS:NAMEHEX         proxy-URI resource with one host name
  *   res      -|PATHHEX:MASK:FLAGS:OBS;…   ordinary resources (PATHHEX is the registered uri_path, `-` = empty)
  *   verdict  CODE:PAYLOADHEX              what every application handler does: set CODE unless 0, add the payload unless `-`
@@ -25,7 +27,8 @@
 #include "sim_core.h"
 
 #define MAXRES 16
-static int v_code;
+static int v_code, v_defer;
+static int cur_port = -1;   /* srvq: source port of the datagram being processed */
 static uint8_t *v_pl; static size_t v_pllen;
 static char names[MAXRES + 2][8];
 
@@ -59,6 +62,7 @@ static void s_opts(sbuf *s, const coap_pdu_t *pdu) {
 static void on_tx(const sim_dgram_t *d) {
   coap_pdu_t *p = coap_pdu_init(0, 0, 0, d->len + 16);
   if (txs.n) s_c(&txs, '/');
+  if (cur_port >= 0 && coap_address_get_port(&d->dst) != cur_port) s_s(&txs, "misrouted>");
   if (p && coap_pdu_parse(COAP_PROTO_UDP, d->data, d->len, p)) {
     coap_bin_const_t tok = coap_pdu_get_token(p);
     size_t len = 0; const uint8_t *data = NULL;
@@ -78,7 +82,6 @@ static void hnd(coap_resource_t *r, coap_session_t *s, const coap_pdu_t *req, co
   const char *name = (const char *)coap_resource_get_userdata(r);
   coap_string_t *path = coap_get_uri_path(req);
   size_t len = 0; const uint8_t *data = NULL;
-  (void)s;
   if (hs.n) s_c(&hs, '/');
   s_s(&hs, name ? name : "?"); s_c(&hs, ':');
   s_u(&hs, coap_pdu_get_code(req)); s_c(&hs, ':');
@@ -89,15 +92,32 @@ static void hnd(coap_resource_t *r, coap_session_t *s, const coap_pdu_t *req, co
   s_opts(&hs, req); s_c(&hs, ':');
   if (coap_get_data(req, &len, &data)) s_hex(&hs, data, len); else s_c(&hs, '-');
   coap_delete_string(path);
+  if (v_defer) {
+    /* separate response later (RFC 7252 5.2.2): remember the request, set nothing now */
+    if (!coap_find_async(s, coap_pdu_get_token(req))) coap_register_async(s, req, 0);
+    return;
+  }
   if (v_code) coap_pdu_set_code(rsp, (coap_pdu_code_t)v_code);
   if (v_pllen) coap_add_data(rsp, v_pllen, v_pl);
 }
 
 static void h_init(void) { sim_global_init(); }
 
-static void set_handlers(coap_resource_t *r, unsigned mask) {
-  for (int m = 1; m <= 7; m++)
-    coap_register_request_handler(r, (coap_request_t)m, (mask >> (m - 1)) & 1 ? hnd : NULL);
+/* The application wants handlers exactly for the methods of `mask`.  `doc` = the methods the constructor registers by
+ * itself according to coap_resource(3) (coap_resource_init: none, coap_resource_unknown_init2: PUT,
+ * coap_resource_proxy_uri_init2: all): the application relies on those, registers what is missing and unregisters
+ * what it does not want — it never re-registers a handler the constructor is documented to have set. */
+#define DOC_RES 0u
+#define DOC_UNK 4u   /* PUT = method 3 */
+#define DOC_PRX 127u
+static int mask_bad;   /* a handler mask outside 0..127 */
+static void set_handlers(coap_resource_t *r, unsigned mask, unsigned doc) {
+  if (mask > 127) mask_bad = 1;
+  for (int m = 1; m <= 7; m++) {
+    unsigned want = (mask >> (m - 1)) & 1, have = (doc >> (m - 1)) & 1;
+    if (want && !have) coap_register_request_handler(r, (coap_request_t)m, hnd);
+    else if (!want && have) coap_register_request_handler(r, (coap_request_t)m, NULL);
+  }
 }
 
 /* splits s in place at every occurrence of sep; returns number of fields */
@@ -109,23 +129,18 @@ static int split(char *s, char sep, char **f, int max) {
   return n;
 }
 
-static void step(char *line) {
-  char *w[16];
-  int n = h_words(line, w, 16);
+/* builds the server of words w[1..6] (mpr mts known unk prx res); 0 on a malformed word */
+static int setup(char **w, coap_context_t **pctx, coap_endpoint_t **pep) {
   coap_context_t *ctx;
-  coap_endpoint_t *ep;
-  coap_address_t src, dst;
-  uint8_t *dg = NULL; size_t dglen = 0;
   int bad = 0;
-  if (n != 11 || strcmp(w[0], "srv")) { printf("bad-op"); return; }
+  mask_bad = 0;
   sim_reset();
-  txs.n = hs.n = 0; if (txs.b) txs.b[0] = 0; if (hs.b) hs.b[0] = 0;
   sim_tx_logger = on_tx; sim_tx_hook = NULL;
   sim_log_events = 0; sim_log_enabled = 0;
   sim_prng_fill = 128;
-  free(v_pl); v_pl = NULL; v_pllen = 0; v_code = 0;
-  ctx = sim_new_context();
-  if (!ctx) { printf("fail"); return; }
+  *pctx = ctx = sim_new_context();
+  *pep = NULL;
+  if (!ctx) return 0;
   if (atoi(w[1])) coap_mcast_per_resource(ctx);
   { int mts = atoi(w[2]); if (mts >= 8 && mts <= 65804) coap_context_set_max_token_size(ctx, (size_t)mts); else bad = 1; }
   if (strcmp(w[3], "-")) {
@@ -137,7 +152,7 @@ static void step(char *line) {
     if (split(w[4], ':', f, 4) != 2) bad = 1;
     else {
       coap_resource_t *r = coap_resource_unknown_init2(hnd, atoi(f[1]));
-      set_handlers(r, (unsigned)atoi(f[0]));
+      set_handlers(r, (unsigned)atoi(f[0]), DOC_UNK);
       strcpy(names[MAXRES], "unk"); coap_resource_set_userdata(r, names[MAXRES]);
       coap_add_resource(ctx, r);
     }
@@ -153,7 +168,7 @@ static void step(char *line) {
         memcpy(host, nm, nl); host[nl] = 0; hl[0] = host;
         coap_resource_t *r = coap_resource_proxy_uri_init2(hnd, 1, hl, atoi(f[1]));
         if (r) {
-          set_handlers(r, (unsigned)atoi(f[0]));
+          set_handlers(r, (unsigned)atoi(f[0]), DOC_PRX);
           strcpy(names[MAXRES + 1], "prx"); coap_resource_set_userdata(r, names[MAXRES + 1]);
           coap_add_resource(ctx, r);
         } else bad = 1;
@@ -170,22 +185,44 @@ static void step(char *line) {
       if (!pb) { bad = 1; break; }
       coap_str_const_t sc = { pl, pb };
       coap_resource_t *r = coap_resource_init(&sc, atoi(f[2]) & ~COAP_RESOURCE_FLAGS_RELEASE_URI);
-      set_handlers(r, (unsigned)atoi(f[1]));
+      set_handlers(r, (unsigned)atoi(f[1]), DOC_RES);
       if (atoi(f[3])) coap_resource_set_get_observable(r, 1);
       snprintf(names[i], sizeof names[i], "r%d", i); coap_resource_set_userdata(r, names[i]);
       coap_add_resource(ctx, r);
       free(pb);
     }
   }
-  {
-    char *f[3];
-    if (split(w[7], ':', f, 3) != 2) bad = 1;
-    else { v_code = atoi(f[0]); v_pl = h_unhex(f[1], &v_pllen); if (!v_pl) bad = 1; }
-  }
+  *pep = sim_new_endpoint(ctx, 0);
+  if (!*pep || mask_bad) bad = 1;
+  return !bad;
+}
+
+/* CODE:PAYLOADHEX | defer */
+static int set_verdict(char *word) {
+  char *f[3];
+  free(v_pl); v_pl = NULL; v_pllen = 0; v_code = 0; v_defer = 0;
+  if (!strcmp(word, "defer")) { v_defer = 1; return 1; }
+  if (split(word, ':', f, 3) != 2) return 0;
+  v_code = atoi(f[0]); v_pl = h_unhex(f[1], &v_pllen);
+  return v_pl != NULL;
+}
+
+static void step(char *line) {
+  char *w[16];
+  int n = h_words(line, w, 16);
+  coap_context_t *ctx;
+  coap_endpoint_t *ep;
+  coap_address_t src, dst;
+  uint8_t *dg = NULL; size_t dglen = 0;
+  int bad = 0;
+  if (n != 11 || strcmp(w[0], "srv")) { printf("bad-op"); return; }
+  txs.n = hs.n = 0; if (txs.b) txs.b[0] = 0; if (hs.b) hs.b[0] = 0;
+  cur_port = -1;
+  if (!setup(w, &ctx, &ep)) bad = 1;
+  if (!ctx) { printf("fail"); return; }
+  if (!set_verdict(w[7]) || v_defer) bad = 1;
   dg = h_unhex(w[10], &dglen);
   if (!dg || (strcmp(w[9], "u") && strcmp(w[9], "m"))) bad = 1;
-  ep = sim_new_endpoint(ctx, 0);
-  if (!ep) bad = 1;
   if (bad) { printf("bad-op"); free(dg); sim_free_all(0); return; }
   sim_addr(&src, 40000);
   if (w[9][0] == 'm') {
@@ -207,4 +244,74 @@ static void step(char *line) {
   sim_free_all(0);
 }
 
-H_MAIN_LOOP(step)
+/*   srvq <mpr> <mts> <known> <unk> <prx> <res>  { <peer> <verdict> <pu> <dst> <hex> }+
+ *
+ * A SEQUENCE of request datagrams at ONE server context (same configuration words as `srv`).  Datagram k comes from
+ * peer <peer> (source port 40000 + peer, 0..15: one libcoap session per peer); <verdict> is CODE:PAYLOADHEX as in `srv`,
+ * or `defer`: the handler answers later — unless the request is already registered it calls
+ * coap_register_async(session, request, 0) and returns without setting anything (delayed indefinitely: the separate
+ * response itself never happens within the line).  Output: one `tx=… h=…` per datagram, joined by ` ;; `; a datagram
+ * libcoap transmits to somebody else than the peer whose datagram is being processed is marked `misrouted>`. */
+#define MAXSTEPS 8
+static void stepq(char *line) {
+  char *w[8 + 5 * MAXSTEPS];
+  int n = h_words(line, w, 8 + 5 * MAXSTEPS);
+  coap_context_t *ctx;
+  coap_endpoint_t *ep;
+  int k;
+  if (n < 12 || (n - 7) % 5 || (n - 7) / 5 > MAXSTEPS) { printf("bad-op"); return; }
+  k = (n - 7) / 5;
+  if (!setup(w, &ctx, &ep)) { printf(ctx ? "bad-op" : "fail"); if (ctx) sim_free_all(0); return; }
+  /* validate every step before anything runs */
+  for (int j = 0; j < k; j++) {
+    char **s = w + 7 + 5 * j;
+    size_t l; uint8_t *b;
+    int peer = atoi(s[0]);
+    if (peer < 0 || peer > 15 || strlen(s[0]) > 2 || s[0][0] < '0' || s[0][0] > '9') goto bad;
+    if (strcmp(s[3], "u") && strcmp(s[3], "m")) goto bad;
+    b = h_unhex(s[4], &l); if (!b) goto bad; free(b);
+    if (strcmp(s[1], "defer")) {
+      const char *c = strchr(s[1], ':');
+      if (!c || strchr(c + 1, ':')) goto bad;
+      b = h_unhex(c + 1, &l); if (!b) goto bad; free(b);
+    }
+  }
+  for (int j = 0; j < k; j++) {
+    char **s = w + 7 + 5 * j;
+    coap_address_t src, dst;
+    uint8_t *dg; size_t dglen;
+    coap_tick_t t0 = sim_now;
+    txs.n = hs.n = 0; if (txs.b) txs.b[0] = 0; if (hs.b) hs.b[0] = 0;
+    cur_port = 40000 + atoi(s[0]);
+    set_verdict(s[1]);
+    dg = h_unhex(s[4], &dglen);
+    sim_addr(&src, cur_port);
+    if (s[3][0] == 'm') {
+      coap_address_copy(&dst, &ep->bind_addr);
+      dst.addr.sin.sin_addr.s_addr = htonl(0xE00001BBu);
+      sim_inject_endpoint_dst(ep, &src, &dst, dg, dglen);
+      for (int i = 0; i < 8; i++) {
+        unsigned wt = sim_prepare(ctx);
+        if (!wt || wt > 6000 || sim_now + wt > t0 + 7000) break;
+        sim_now += wt;
+      }
+    } else {
+      sim_inject_endpoint(ep, &src, dg, dglen);
+      sim_prepare(ctx);
+    }
+    free(dg);
+    printf("%stx=%s h=%s", j ? " ;; " : "", txs.n ? txs.b : "-", hs.n ? hs.b : "-");
+  }
+  sim_tx_logger = NULL;
+  sim_free_all(0);
+  return;
+bad:
+  printf("bad-op");
+  sim_free_all(0);
+}
+
+static void step_any(char *line) {
+  if (!strncmp(line, "srvq ", 5)) stepq(line); else step(line);
+}
+
+H_MAIN_LOOP(step_any)
